@@ -352,8 +352,8 @@ def run(P, R, tier):
     # memoised by its arguments (functools cache decorators, or a module-level dict consulted before reading) returns
     # the previous dataset's metadata after an overwrite -- no writer-side invalidation can cover other processes.
     def reads_storage(c, g):
-        if astq.fs_call(c, {'open', 'cat', 'cat_file', 'read_bytes', 'get'}):
-            return True
+        if astq.fs_call(c, {'open', 'cat', 'cat_file', 'read_bytes', 'get', 'expand_path', 'ls', 'listdir', 'glob', 'find', 'walk', 'exists', 'isdir', 'isfile', 'info'}):
+            return True          # listings and existence checks go stale just like contents
         r_ = P.resolve_call(g, c)
         return bool(r_ and r_[0] == 'ext' and r_[1].split('.')[-1] in ('read_metadata', 'read_table', 'ParquetDataset', 'read_schema', 'ParquetFile'))
     nread = 0
